@@ -887,6 +887,38 @@ func genC10(c *Ctx) {
 			}
 		}
 	}
+	// twins: (E) AND (F), (E) OR (F) and their commuted forms for every pair of expressions over the same three terms
+	tw := twinTrees([]string{"MIT", "ISC", "Apache-2.0"})
+	twSubs := subsets([]string{"MIT", "ISC", "Apache-2.0"})
+	bb := func(x bool) string {
+		if x {
+			return "T"
+		}
+		return "F"
+	}
+	for _, E := range tw {
+		for _, F := range tw {
+			se, sf := E.render(0, c.rng), F.render(0, c.rng)
+			c.count("twin_decompositions")
+			for _, A := range twSubs {
+				re, rf := c.S(se, A), c.S(sf, A)
+				ra, ro := c.S("("+se+") AND ("+sf+")", A), c.S("("+se+") OR ("+sf+")", A)
+				rw := c.S("Zlib AND (("+se+") OR ("+sf+"))", append([]string{"Zlib"}, A...))
+				if re == unknown || rf == unknown || ra == unknown || ro == unknown || rw == unknown {
+					continue
+				}
+				if ra != bb(re == "T" && rf == "T") {
+					c.fail("Satisfies", map[string]interface{}{"expression": "(" + se + ") AND (" + sf + ")", "allowed": A}, ra, bb(re == "T" && rf == "T"), "Satisfies(E,A) and Satisfies(F,A) on the real package (E, F over the same terms)")
+				}
+				if ro != bb(re == "T" || rf == "T") {
+					c.fail("Satisfies", map[string]interface{}{"expression": "(" + se + ") OR (" + sf + ")", "allowed": A}, ro, bb(re == "T" || rf == "T"), "Satisfies(E,A) or Satisfies(F,A) on the real package (E, F over the same terms)")
+				}
+				if rw != ro {
+					c.fail("Satisfies", map[string]interface{}{"expression": "Zlib AND ((" + se + ") OR (" + sf + "))", "allowed": append([]string{"Zlib"}, A...)}, rw, ro, "Zlib is allowed, so the verdict is that of (E) OR (F)")
+				}
+			}
+		}
+	}
 	// seeded deep trees: operand order and regrouping at nesting depth 3+, seeded assignments
 	nd := 1200
 	if c.thorough() {
